@@ -250,7 +250,8 @@ func RunInternal(text string, vars map[string]string, store numscript.Store, fla
 	if err != nil {
 		out.ErrClass, out.ErrType = Classify(err)
 		out.ErrMsg = err.Error()
-		if res != nil {
+		// an explicitly empty result next to the error is not "postings or metadata"
+		if res != nil && (len(res.Postings) != 0 || len(res.Metadata) != 0 || len(res.AccountsMetadata) != 0) {
 			out.NonEmptyWithError = true
 		}
 		return
